@@ -66,6 +66,9 @@ def directed():
         '(2147483647, 2147483648, -2147483648, -2147483649)', '(0x7fffffff, 0x80000000, -0x80000000, -0x80000001)',
         '[(0.0, -0.0), (-0.0, 0.0)]', '{0.0: (0.0, -0.0), 1: (-0.0, 0.0)}', '(0.0, -0.0) + (-0.0, 0.0)',
         '((0.0, -0.0) * 2, (-0.0, 0.0) * 2)', '1_000_000', '0x_ff', '0b_1', '0o_7', '1_0.0_1', '1e1_0',
+        '-0x80000000', '-0X8000_0000', '-0o20000000000', '-0b1' + '0' * 31, '-0x7fffffff', '-(0x80000000)', '-0x1', '-00',
+        '-0xffffffff', '-0x80000001', '0x80000000', '0xffffffff', '0o17777777777', '-0o17777777777', '-2147483648',
+        '(1, 2) * 2 * 3', '2 * (0.0,) * 3', '(1,) * 3 * 1', '3 * ((0,) * 2)', '[1, 2] * 2 * 2', '(0.0, -0.0) * 2 * 2',
         '(1e400, -1e400)', '(-1e400, 1e400)', '(1e400 - 1e400,)', '(0j, 0.0, 0)', '(0, 0.0, 0j)',
     ]
 
@@ -307,10 +310,8 @@ def _c_model(op, a, b):
                 return q            # floor() keeps zeros (with their sign), infinities and nan
             return float(math.floor(q))
         if op == 'mod':
-            r = math.fmod(a, b)
-            if r != 0 and ((r < 0) != (b < 0)):
-                r += b
-            return r
+            r = math.fmod(a, b)        # CMath.c ModFloat: r += ((r != 0) & ((r < 0) ^ (b < 0))) * b
+            return r + float((r != 0) and ((r < 0) != (b < 0))) * b
     except (OverflowError, ZeroDivisionError, ValueError, TypeError):
         return None
     return None
